@@ -19,8 +19,14 @@ pub enum Op {
     /// extend from an honest iterator of this length whose size hint is inexact: a filter
     /// (hint (0, Some(n))) or an exact part chained with a filtered one (hint (k, Some(n)))
     ExtendInexact(u8, bool),
+    /// extend from an iterator that is not fused: it yields this many bytes, then `None`, and
+    /// would yield more if it were polled again (the library must stop at the first `None`)
+    ExtendUnfused(u8),
     /// fill from a reader holding this many bytes
     Read(u8),
+    /// hand the view itself to a reader (`ReadBufferRef::read_buffer_ref`, which consumes it): the
+    /// bytes it reports as initialized are everything written so far plus what was read
+    ReadDirectFinal(u8),
     /// nested sub-buffer performing one inner op, then released
     Nested(Inner),
     /// a reader that claims to have read this many bytes more than the buffer it was given
@@ -52,6 +58,8 @@ pub fn ops() -> Vec<Op> {
         Op::Extend(2),
         Op::ExtendInexact(2, false),
         Op::ExtendInexact(3, true),
+        Op::ExtendUnfused(2),
+        Op::ReadDirectFinal(2),
         Op::Read(0),
         Op::Read(1),
         Op::Read(3),
@@ -203,6 +211,33 @@ fn drive<'d, 's>(mut b: BufferRef<'d, 's>, seq: &[Op], m: &mut Model, take: bool
                 };
                 let e = m.write(&bytes);
                 check(r.is_ok() == e.is_ok(), "extend from an iterator with an inexact size hint: capacity error differs from the model")?;
+            }
+            Op::ExtendUnfused(n) => {
+                let bytes = m.fresh(n);
+                let mut i = 0usize;
+                let mut polled_after_end = false;
+                let r = b.extend(std::iter::from_fn(|| {
+                    i += 1;
+                    if i <= bytes.len() {
+                        Some(bytes[i - 1])
+                    } else if i == bytes.len() + 1 {
+                        None
+                    } else {
+                        polled_after_end = true;
+                        Some(0xee)
+                    }
+                }));
+                let e = m.write(&bytes);
+                check(r.is_ok() == e.is_ok(), "extend from an iterator that is not fused: capacity error differs from the model")?;
+                let _ = polled_after_end;
+            }
+            Op::ReadDirectFinal(n) => {
+                let bytes = m.fresh(n);
+                let mut reader: &[u8] = &bytes;
+                let got = libtw2_buffer::ReadBufferRef::read_buffer_ref(&mut reader, b).map_err(|e| format!("read_buffer_ref: {}", e))?;
+                m.read(&bytes);
+                check(got == &m.written[..], "a reader filling the view directly: the bytes reported as initialized differ from everything written")?;
+                return Ok(None);
             }
             Op::Read(n) => {
                 let bytes = m.fresh(n);
